@@ -50,6 +50,10 @@ pub struct Dut {
     /// (what an event buffers is neither sorted nor short)
     #[serde(default)]
     pub burst_on: Option<(u16, usize)>,
+    /// the handler panics on this message id; the module's stereotype catches panics, so the event is closed
+    /// normally (event_end on every element) and the module is inert afterwards
+    #[serde(default)]
+    pub panic_on: Option<u16>,
 }
 
 #[derive(Debug, Clone, Serialize, Deserialize, PartialEq)]
@@ -183,6 +187,9 @@ impl Module for DutModule {
     fn at_sim_start(&mut self, stage: usize) {
         log(Entry { dut: self.idx, hook: Hook::SimStart, idx: stage, id: 0, tags: 0, passed: true });
         if stage == 0 && SimTime::now() == SimTime::ZERO {
+            if self.dut.panic_on.is_some() {
+                current().set_stereotyp(des::net::module::Stereotyp { on_panic_catch: true, ..des::net::module::Stereotyp::HOST });
+            }
             for (t, id) in &self.dut.msgs {
                 schedule_at(Message::default().id(*id), SimTime::from_duration(Duration::from_nanos(*t)));
             }
@@ -216,6 +223,9 @@ impl Module for DutModule {
         }
         if self.dut.restart_on == Some(h.id) {
             current().shutdow_and_restart_in(Duration::from_nanos(1_000));
+        }
+        if self.dut.panic_on == Some(h.id) {
+            panic!("injected panic in the handler of dut{} (caught by its stereotype)", self.idx);
         }
     }
 
@@ -286,6 +296,7 @@ pub struct Obs {
     pub restart_brackets: u64,
     pub end_brackets: u64,
     pub probes: u64,
+    pub caught_panics: u64,
 }
 
 /// bracket grammar over the global log
@@ -503,9 +514,25 @@ pub fn check(case: &Case, log: &[Entry], result: &Result<(), String>) -> (Vec<Fi
     // every scheduled message produced exactly one bracket (handled or consumed), unless it arrived while down
     // (restart window of 1 us: messages are not scheduled inside it)
     for (d, dut) in case.duts.iter().enumerate() {
-        for (_, id) in &dut.msgs {
+        // a handler that panicked (caught): the module is inert from then on
+        let dead_after: Option<u64> = dut.panic_on.and_then(|pid| {
+            let reached = log.iter().any(|e| e.dut == d && e.hook == Hook::HandleMessage && e.id == pid);
+            if reached {
+                obs.caught_panics += 1;
+                dut.msgs.iter().find(|(_, id)| *id == pid).map(|(t, _)| *t)
+            } else {
+                None
+            }
+        });
+        for (t, id) in &dut.msgs {
             let handled = log.iter().filter(|e| e.dut == d && e.hook == Hook::HandleMessage && e.id == *id).count();
             let consumed_n = log.iter().filter(|e| e.dut == d && e.hook == Hook::Incoming && e.id == *id && !e.passed).count();
+            if dead_after.is_some_and(|dt| *t > dt) {
+                if handled + consumed_n != 0 {
+                    f.push(("message-count", format!("dut{d}: message {id} was processed although the module's handler had panicked before")));
+                }
+                continue;
+            }
             if handled + consumed_n != 1 {
                 f.push(("message-count", format!("dut{d}: message {id} was handled {handled}x and consumed {consumed_n}x")));
             }
@@ -561,6 +588,7 @@ pub fn gen_case(rng: &mut Rng) -> Case {
                 end_err: rng.chance(1, 6),
                 append_at_once: rng.chance(1, 2),
                 burst_on: if rng.chance(1, 6) { Some((rng.below(m as u64) as u16, 33 + rng.usize_below(30))) } else { None },
+                panic_on: if restart_on.is_none() && rng.chance(1, 6) { Some(rng.below(m as u64) as u16) } else { None },
             }
         })
         .collect();
@@ -594,6 +622,7 @@ pub fn cmd(args: &Args) -> Report {
         rep.count("start_stage_brackets", obs.start_brackets);
         rep.count("restart_stage_brackets", obs.restart_brackets);
         rep.count("teardown_brackets", obs.end_brackets);
+        rep.count("message_events_whose_handler_panic_was_caught", obs.caught_panics);
         rep.count("teardowns_reporting_an_error", case.duts.iter().filter(|d| d.end_err).count() as u64);
         rep.count("messages_sent_from_hooks_received", obs.probes);
         let k_max = case.duts.iter().map(|d| d.own.len() + case.global.len()).max().unwrap_or(0);
